@@ -898,6 +898,11 @@ impl H {
         }
         a.clone()
       }
+      _ if m.ctrl_array1 && exp_len + 2 > MAX_PAYLOAD => {
+        // latitude: a library that keeps the one-element controller array packs two bytes more
+        self.rep.inc("limit_ambiguous_one_element_array");
+        return;
+      }
       _ => {
         let e = [&p1, &p2, &p3].iter().filter_map(|p| p.as_ref().err().map(|e| e.to_string())).next().unwrap_or_default();
         self.rep.violation("pack-rejects-fitting-document", &format!("payload of {} bytes (<= 65535) but pack failed: {}", exp_len, e), case.clone());
@@ -905,6 +910,8 @@ impl H {
       }
     };
     self.rep.inc("pack_ok");
+    // latitude (see above): `"controller":["x"]` kept as an array is two bytes longer
+    let exp_len = if m.ctrl_array1 && bytes.len() == exp_len + 2 + 7 { exp_len + 2 } else { exp_len };
     if exp_len + 64 > MAX_PAYLOAD {
       self.rep.distinct("nontrivial", &format!("near-limit|{}", MAX_PAYLOAD - exp_len));
     }
@@ -1056,6 +1063,9 @@ impl H {
           w.metadata.state_controller_address = None;
           if !plain_ok {
             self.rep.inc("rebase_eq_skipped_plain_json_lossy");
+          } else if m.ctrl_array1 && j3 != want {
+            // the one-element array form was kept (allowed); the builder cannot express it
+            self.rep.inc("rebase_eq_skipped_array_form");
           } else if w != d3 {
             self.rep.violation("rebase-unequal:same-json", "rebased document serialises as expected but `==` with the expected document is false", tcase.clone());
             continue;
